@@ -174,14 +174,15 @@ class get_expr_end_visitor(NodeVisitor):
 
     def visit_Constant(self, node):
         # type: (Constant) -> None
-        self.last_loc = node.lineno, node.col_offset + 1
+        self.last_loc = max(self.last_loc, (node.lineno, node.col_offset + 1))
 
     def __getattr__(self, name):
         # type: (str) -> t.Callable[[AST], None]
         def inner(node):
             # type: (AST) -> None
             try:
-                self.last_loc = node.lineno, node.col_offset + 1
+                # fields are not always visited in text order: f(b=1, *x) has x before b
+                self.last_loc = max(self.last_loc, (node.lineno, node.col_offset + 1))
             except AttributeError:
                 pass
             self.generic_visit(node)
